@@ -24,14 +24,14 @@ import (
 )
 
 type childSpec struct {
-	Mode     string `json:"mode"` // table | origin | dev | bridge | history | concurrent | fuzz | wire | replay
-	Tier     string `json:"tier"`
-	Seed     uint64 `json:"seed"`
-	Shard    int    `json:"shard"`
-	NShards  int    `json:"nshards"`
-	LogLevel string `json:"log_level"`
-	Build    string `json:"build"`
-	N        int    `json:"n,omitempty"`
+	Mode     string          `json:"mode"` // table | origin | dev | bridge | history | concurrent | fuzz | wire | replay
+	Tier     string          `json:"tier"`
+	Seed     uint64          `json:"seed"`
+	Shard    int             `json:"shard"`
+	NShards  int             `json:"nshards"`
+	LogLevel string          `json:"log_level"`
+	Build    string          `json:"build"`
+	N        int             `json:"n,omitempty"`
 	Replay   json.RawMessage `json:"replay,omitempty"`
 }
 
@@ -90,31 +90,45 @@ func main() {
 		add(childSpec{Mode: "origin", LogLevel: "info"}, cfg.BinPlain, 10*time.Minute)
 		add(childSpec{Mode: "dev"}, cfg.BinPlain, 10*time.Minute)
 		add(childSpec{Mode: "bridge", LogLevel: "debug"}, cfg.BinPlain, 10*time.Minute)
-		for s := 0; s < cfg.N(4, 24); s++ {
-			add(childSpec{Mode: "history", Shard: s, N: cfg.N(6, 12), LogLevel: levels[(s+1)%len(levels)]}, cfg.BinPlain, 15*time.Minute)
+		for s := 0; s < cfg.N(8, 48); s++ {
+			add(childSpec{Mode: "history", Shard: s, N: cfg.N(10, 40), LogLevel: levels[(s+1)%len(levels)]}, cfg.BinPlain, 15*time.Minute)
+		}
+		for s := 0; s < cfg.N(4, 16); s++ {
+			add(childSpec{Mode: "churn", Shard: s, N: cfg.N(40, 300), LogLevel: levels[(s+2)%len(levels)]}, cfg.BinPlain, 15*time.Minute)
 		}
 		for s := 0; s < cfg.N(2, 8); s++ {
-			add(childSpec{Mode: "concurrent", Shard: s, N: cfg.N(1500, 6000)}, cfg.BinPlain, 15*time.Minute)
+			add(childSpec{Mode: "revoke", Shard: s, N: cfg.N(5, 30), LogLevel: levels[(s+3)%len(levels)]}, cfg.BinPlain, 15*time.Minute)
+		}
+		for s := 0; s < cfg.N(4, 16); s++ {
+			add(childSpec{Mode: "concurrent", Shard: s, N: cfg.N(3000, 20000)}, cfg.BinPlain, 15*time.Minute)
 		}
 		if cfg.BinRace != "" {
-			for s := 0; s < cfg.N(3, 12); s++ {
-				add(childSpec{Mode: "concurrent", Shard: 100 + s, N: cfg.N(800, 3000), Build: "race"}, cfg.BinRace, 20*time.Minute)
+			for s := 0; s < cfg.N(4, 24); s++ {
+				add(childSpec{Mode: "concurrent", Shard: 100 + s, N: cfg.N(1500, 8000), Build: "race"}, cfg.BinRace, 20*time.Minute)
 			}
-			add(childSpec{Mode: "history", Shard: 100, N: cfg.N(2, 6), Build: "race"}, cfg.BinRace, 20*time.Minute)
+			for s := 0; s < cfg.N(1, 8); s++ {
+				add(childSpec{Mode: "history", Shard: 100 + s, N: cfg.N(3, 15), Build: "race"}, cfg.BinRace, 20*time.Minute)
+			}
+			add(childSpec{Mode: "churn", Shard: 100, N: cfg.N(20, 150), Build: "race"}, cfg.BinRace, 20*time.Minute)
 		}
 		nf := cfg.N(2, 16)
 		for s := 0; s < nf; s++ {
 			add(childSpec{Mode: "fuzz", Shard: s, NShards: nf, N: cfg.N(10000, 1000000) / nf, LogLevel: levels[s%len(levels)]}, cfg.BinPlain, 20*time.Minute)
 		}
-		add(childSpec{Mode: "wire", N: cfg.N(1, 6), LogLevel: "info"}, cfg.BinPlain, 15*time.Minute)
+		add(childSpec{Mode: "wire", N: cfg.N(1, 10), LogLevel: "info"}, cfg.BinPlain, 15*time.Minute)
 	}
 
+	seenRaceNote := map[string]bool{}
 	vlib.RunChildren(cfg, specs, func(i int, c *vlib.ChildResult) {
 		cs := cspecs[i]
 		rep.Seen("scenario_modes", cs.Mode)
 		rep.Seen("builds_run", cs.Build)
 		rep.Seen("log_levels", cs.LogLevel)
 		rep.Count("children", 1)
+		rep.Max("child_wall_max_s", int64(c.Wall.Seconds()))
+		if c.Wall > 6*time.Minute {
+			rep.Note("slow child %s: %s", c.Name, c.Wall.Round(time.Second))
+		}
 		rep.MergeChild(c)
 		for _, rr := range c.Races {
 			switch {
@@ -124,7 +138,10 @@ func main() {
 				rep.Violation("C12:race:"+rr.Signature(), "data race on the API key / session state", map[string]any{"report": rr.Text, "child": cs})
 			default:
 				rep.Count("race_diagnostics_out_of_scope", 1)
-				rep.Note("out-of-scope race report (%s): %s", c.Name, rr.Signature())
+				if !seenRaceNote[rr.Signature()] {
+					seenRaceNote[rr.Signature()] = true
+					rep.Note("out-of-scope race report (first in %s): %s", c.Name, rr.Signature())
+				}
 			}
 		}
 		if c.TimedOut {
@@ -169,7 +186,7 @@ func finish(cfg vlib.Cfg, rep *vlib.Report) {
 	rep.Floor(rep.Counter("bridge_requests") >= 100, "bridge_requests=%d", rep.Counter("bridge_requests"))
 	rep.Floor(rep.Counter("wire_requests") >= 50, "wire_requests=%d", rep.Counter("wire_requests"))
 	rep.Floor(rep.Counter("concurrent_requests") >= 1000, "concurrent_requests=%d", rep.Counter("concurrent_requests"))
-	for _, cls := range []string{"none", "auth-ok", "auth-nil", "auth-err", "auth-deny", "cookie-valid", "cookie-expired", "cookie-unknown", "bearer-valid", "basic-valid",
+	for _, cls := range []string{"none", "auth-ok", "auth-err", "auth-deny", "cookie-valid", "cookie-expired", "cookie-unknown", "bearer-valid", "basic-valid",
 		"bearer-expired", "bearer-unknown", "bearer-short", "basic-short", "scheme-malformed", "bridge", "dev"} {
 		rep.Floor(rep.Counter("cred:"+cls) > 0, "credential class %s never exercised", cls)
 	}
@@ -228,6 +245,10 @@ func childMain(dir string) {
 		rerr = runHistories(w, j, cs)
 	case "concurrent":
 		rerr = runConcurrent(w, j, cs)
+	case "churn":
+		rerr = runChurn(w, j, cs)
+	case "revoke":
+		rerr = runRevoke(w, j, cs)
 	case "fuzz":
 		rerr = runFuzz(w, j, cs)
 	case "wire":
@@ -238,7 +259,12 @@ func childMain(dir string) {
 		rerr = fmt.Errorf("unknown mode %q", cs.Mode)
 	}
 	if rerr != nil {
-		if isInconclusive(rerr) {
+		if isWedged(rerr) && b.NViolations() > 0 {
+			// the violation is recorded; the world cannot be used any further
+			b.Note("%s shard %d stopped: %s", cs.Mode, cs.Shard, rerr)
+			b.Finish(dir)
+			os.Exit(0)
+		} else if isInconclusive(rerr) {
 			b.Inconclusive("%s shard %d: %s", cs.Mode, cs.Shard, rerr)
 		} else {
 			fmt.Fprintln(os.Stderr, "VERIF-SETUP-FAILED", cs.Mode, rerr)
